@@ -492,41 +492,49 @@ class WFSA:
 
         if S is None:
             S = _gen_nt()
-        cfg = CFG(R=self.R, V=self.alphabet - {EPSILON}, S=S)
+        V = self.alphabet - {EPSILON}
+        cfg = CFG(R=self.R, V=V, S=S)
+
+        # A state whose name is also an alphabet symbol (e.g. the prefix-named
+        # states of `from_string`) would be read as a terminal: rename it.
+        renamed = {q: _gen_nt(f"{q}") for q in self.states if q in V or q == S}
+
+        def N(q):
+            return renamed.get(q, q)
 
         if recursion == "right":
             # add production rule for initial states
             for i, w in self.I:
-                cfg.add(w, S, i)
+                cfg.add(w, S, N(i))
 
             # add production rule for final states
             for i, w in self.F:
-                cfg.add(w, i)
+                cfg.add(w, N(i))
 
             # add other production rules
             for i, a, j, w in self.arcs():
                 if a == EPSILON:
-                    cfg.add(w, i, j)
+                    cfg.add(w, N(i), N(j))
                 else:
-                    cfg.add(w, i, a, j)
+                    cfg.add(w, N(i), a, N(j))
 
         else:
             assert recursion == "left"
 
             # add production rule for final states
             for i, w in self.F:
-                cfg.add(w, S, i)
+                cfg.add(w, S, N(i))
 
             # add production rule for initial states
             for i, w in self.I:
-                cfg.add(w, i)
+                cfg.add(w, N(i))
 
             # add other production rules
             for i, a, j, w in self.arcs():
                 if a == EPSILON:
-                    cfg.add(w, j, i)
+                    cfg.add(w, N(j), N(i))
                 else:
-                    cfg.add(w, j, i, a)
+                    cfg.add(w, N(j), N(i), a)
 
         return cfg
 
